@@ -1465,6 +1465,11 @@ def gen_watches(rng, specs, locs):
                            ('tuple([1, 2, 3])', 'tuple([4, 5, 6])'), ('[1, 2]', '[3, 4]'),
                            ('"hello " + "world"', '"hello " + "there"')])
         out += [a, a, b] if rng.random() < 0.7 else [name, a, a, b]
+    if rng.random() < 0.06:
+        # MANY fresh scalar temporaries (floats, strs, ints beyond the small-int cache) nothing in the frame refers to: each is
+        # garbage when the next is made and its address is reused; two different values must never share an id
+        forms = ['float(%d) * 2.5', 'int("7%03d") + 1000', '"w%d-" + str(3.5)', 'float(%d) / 7.0', 'str(%d) + "-tail"']
+        out += [rng.choice(forms) % (k + 2) for k in range(rng.randint(15, 40))]
     if rng.random() < 0.08:
         # many new small tuples / lists created after the frame was collected
         out.append(rng.choice(['[(i, str(i)) for i in range(40)]', '[(i, i * 1000) for i in range(30)]',
